@@ -8,6 +8,10 @@ from . import common as C
 PROPERTY = 'C19'
 BUDGET = {'quick': 150, 'thorough': 900}
 LAST_CONFIG_INFO = {}
+# a hash cached when the object is built is computed outside the recording (3.2) and is seen by the concrete twin only:
+# validate a larger share of the paths concretely
+WITNESS_FRACTION = {'quick': 0.35, 'thorough': 0.6}
+WITNESS_CAP = {'quick': 2000, 'thorough': 6000}
 
 META = {
     'bounds': ['quantities: two unbounded symbolic amounts in every flavour mixture, all ordered in-type unit pairs of the '
@@ -49,6 +53,7 @@ def jobs(tier, seed):
                                            'fa': 'dec', 'fb': 'frac', 'converter': True}})
     out.append({'fn': 'money_pairs', 'cfg': {}})
     out.append({'fn': 'alloc_portions', 'cfg': {}})
+    out.append({'fn': 'rates_concrete', 'cfg': {}})
     out.append({'fn': 'user_units', 'cfg': {}})
     out.append({'fn': 'terms', 'cfg': {}})
     for mi in range(3):
@@ -154,6 +159,30 @@ def _eur():
 def _usd():
     from quantity.money import Money
     return Money.register_currency('USD')
+
+
+def rates_concrete(E, cfg):
+    """concrete rates with more than six fractional digits in the rate (unit multiple > 1), built and hashed under
+    different default rounding modes (enumeration; a hash cached at construction is invisible to the recording)"""
+    from decimalfp import Decimal
+    from quantity.money import ExchangeRate, Money
+    eur, jpy = Money.register_currency('EUR'), Money.register_currency('JPY')
+    um, amt = E.choice('rate', [(100, '0.612355'), (1, '0.00612355'), (1000, '1.234565'), (10, '0.1234565'), (100, '0.612345'),
+                                (1, '0.00612345'), (1, '1.25')])
+    m1, m2 = E.choice('modes', [('ROUND_HALF_EVEN', 'ROUND_DOWN'), ('ROUND_CEILING', 'ROUND_FLOOR'), ('ROUND_HALF_UP', 'ROUND_05UP'),
+                                ('ROUND_UP', 'ROUND_HALF_DOWN')])
+    C.set_default_mode(m1)
+    r1 = ExchangeRate(jpy, um, eur, Decimal(amt))
+    h1 = hash(r1)
+    C.set_default_mode(m2)
+    r2 = ExchangeRate(jpy, um, eur, Decimal(amt))
+    # (the stored amount is rounded with the mode active at construction, so the two need not be equal)
+    if r1 == r2:
+        E.check(hash(r1) == hash(r2), 'equal-rates-hash-equal-across-modes', key='rate-hash-concrete:hash', info=[um, amt, m1, m2])
+        E.check(len({r1, r2}) == 1, 'set-holds-one-of-two-equal-rates', key='rate-hash-concrete:set', info=[um, amt, m1, m2])
+    else:
+        E.ok('rates-differ-by-construction-mode')
+    E.check(hash(r1) == h1, 'rate-hash-stable', key='rate-hash-concrete:stable', info=[um, amt, m1, m2])
 
 
 def alloc_portions(E, cfg):
